@@ -367,7 +367,7 @@ theorem whole_walk_lossless (id : Nat) (dir : Bool) (cmd : Bytes) (fixed : List 
     (hall : m.AllP (Sole id dir cmd fixed)) (hone : m.weight wT ≤ 1) (hmem : M.multis m ≠ [])
     (hb : ∃ nb, newBatch g.budget cmd fixed = some nb)
     (hwalk : ((refCfg c).depthFirst = false ∧ PruneOkN (refCfg c) (evalEntry m start) [] 0 (if c.sorted then sortNode root else root)) ∨
-             ((refCfg c).depthFirst = true ∧ ¬ HRootLink (refCfg c) (if c.sorted then sortNode root else root))) :
+             (refCfg c).depthFirst = true) :
     let n := if c.sorted then sortNode root else root
     let r := processDir c m start (some root) g
     ∃ L, delivered (cmd :: fixed) r.gs = handed (cmd :: fixed) id g ++ L ∧
@@ -376,9 +376,9 @@ theorem whole_walk_lossless (id : Nat) (dir : Bool) (cmd : Bytes) (fixed : List 
   intro n r
   have hroot : processRoot (refCfg c) (evalEntry m start) n { g with curDir := none } =
       (let q := refRoot (refCfg c) (evalEntry m start) n ⟨{ g with curDir := none }, 0, 0⟩; resOf q.1 q.2) := by
-    rcases hwalk with ⟨h1, h2⟩ | ⟨h1, h2⟩
+    rcases hwalk with ⟨h1, h2⟩ | h1
     · exact processRoot_preN (refCfg c) (evalEntry m start) h1 n h2 _
-    · exact processRoot_post (refCfg c) (evalEntry m start) h1 n h2 _
+    · exact processRoot_postAny (refCfg c) (evalEntry m start) h1 n _
   have hsub := refNode_sub (refCfg c) (evalEntry m start) (TW id dir cmd fixed start)
     (TW_refl id dir cmd fixed start) (TW_trans id dir cmd fixed start) (TW_weaken id dir cmd fixed start)
     (fun v s => evalEntry_TW id dir cmd fixed start m hall hone v s) [] 0 n ⟨{ g with curDir := none }, 0, 0⟩
